@@ -1,0 +1,122 @@
+//go:build verif
+
+// Contracts for package scorch: building a term field reader over a snapshot (read by /verif/gocv;
+// comment-only effect with the verif tag off).
+//
+// C02 (leaf): every postings iterator of the reader is obtained, for segment k, from the
+// dictionary of (segment k, the field), for the reader's term, with segment k's deleted bitmap as
+// the exclusion set - so a term search only ever sees documents of the right segment, field and
+// term that are not deleted in this snapshot. C08: the constructor establishes the representation
+// invariant that the reader's Next / Advance contracts (zz_verif_tfr.go) require.
+
+package scorch
+
+// ---- zapx: dictionaries, postings lists and iterators are created per segment (assumed) ----
+// zapx hands out shared, permanently empty singletons (emptyDictionary, emptyPostingsList,
+// emptyPostingsIterator) when a field or term does not occur in a segment: emptyDict / emptyPL /
+// emptyIt mark them. Everything else is a fresh or reused (prealloc) object bound to its arguments;
+// the binding is ghost state of the object.
+//@ uf emptyDict(d segment.TermDictionary) bool
+//@ uf emptyPL(pl segment.PostingsList) bool
+//@ ghostfield segment.TermDictionary.dseg segment.Segment
+//@ ghostfield segment.TermDictionary.dfield string
+//@ ghostfield segment.PostingsList.lseg segment.Segment
+//@ ghostfield segment.PostingsList.lfield string
+//@ ghostfield segment.PostingsList.lterm string
+//@ ghostfield segment.PostingsList.lexcept *roaring.Bitmap
+//@ ghostfield segment.PostingsIterator.iseg segment.Segment
+//@ ghostfield segment.PostingsIterator.ifield string
+//@ ghostfield segment.PostingsIterator.iterm string
+//@ ghostfield segment.PostingsIterator.iexcept *roaring.Bitmap
+// doc numbers are 32 bit
+//@ axiom segDocsSmall: all(sg, segment.Segment, segDocs(sg) <= 4294967296)
+// a term as a value (function of the bytes)
+//@ uf termKey(t []byte) string
+
+//@ assume func segment.Segment.Dictionary(seg, field)
+//@   requires seg != nil
+//@   ensures implies(result1 == nil, result0 != nil && (emptyDict(result0) || (fresh(result0) && result0.dseg == seg && result0.dfield == field)))
+//@ assume func segment.Segment.BytesRead(seg)
+//@ assume func segment.PostingsList.BytesRead(pl)
+//@ assume func segment.TermDictionary.PostingsList(d, term, except, prealloc)
+//@   requires d != nil
+//@   modifies prealloc.lseg, prealloc.lfield, prealloc.lterm, prealloc.lexcept
+//@   ensures implies(result1 == nil, result0 != nil && (emptyPL(result0) || ((fresh(result0) || (prealloc != nil && result0 == prealloc)) && !emptyDict(d) && \
+//@             result0.lseg == d.dseg && result0.lfield == d.dfield && result0.lterm == termKey(term) && result0.lexcept == except)))
+//@ assume func segment.PostingsList.Iterator(pl, includeFreq, includeNorm, includeLocs, prealloc)
+//@   requires pl != nil
+//@   modifies prealloc.iseg, prealloc.ifield, prealloc.iterm, prealloc.iexcept, prealloc.pstarted, prealloc.plast, prealloc.pdone
+//@   ensures result != nil && !result.pstarted && (emptyIt(result) || ((fresh(result) || (prealloc != nil && result == prealloc)) && !emptyPL(pl) && !result.pdone && \
+//@             result.iseg == pl.lseg && result.ifield == pl.lfield && result.iterm == pl.lterm && result.iexcept == pl.lexcept && segCount(result) == segDocs(pl.lseg)))
+// (the shared empty iterator is never reused as prealloc, and it is never started)
+//@   ensures implies(prealloc != nil && emptyIt(prealloc), prealloc.pstarted == old(prealloc.pstarted))
+
+// the field a term dictionary is opened for: a field whose index data was dropped by an update
+// of the mapping reads as the empty field
+//@ spec fieldHidden(is *IndexSnapshot, field string) bool = in(is.updatedFields, field) && (is.updatedFields[field].Index || is.updatedFields[field].Deleted)
+//@ spec fieldIs(is *IndexSnapshot, f string, field string) bool = ite(fieldHidden(is, field), len(f) == 0, f == field)
+
+// ---- the recycle cache of readers (trusted) ----
+// a reader handed out by the cache is blank, or was built by TermFieldReader for this snapshot
+// and this field before: its slices have one entry per segment, its dictionaries belong to the
+// segments in order, its iterators sit at their own positions
+//@ spec tfrRecycled(is *IndexSnapshot, r *IndexSnapshotTermFieldReader, field string) bool = \
+//@     (r.dicts == nil || (len(r.dicts) == len(is.segment) && forall(k, 0, len(r.dicts), r.dicts[k] != nil && (emptyDict(r.dicts[k]) || (r.dicts[k].dseg == is.segment[k].segment && fieldIs(is, r.dicts[k].dfield, field)))))) && \
+//@     (r.postings == nil || len(r.postings) == len(is.segment)) && \
+//@     (r.iterators == nil || (len(r.iterators) == len(is.segment) && forall(k, 0, len(r.iterators), r.iterators[k] == nil || emptyIt(r.iterators[k]) || (r.iterators[k].ppos == k && segCount(r.iterators[k]) == segDocs(is.segment[k].segment)))))
+//@ func IndexSnapshot.allocTermFieldReaderDicts
+//@   props C02 C08
+//@   mode int
+//@   trusted the recycle cache (a map of slices of readers under the snapshot's mutex) is not under contract: what it hands out is assumed to be blank or a reader of this snapshot and field
+//@   requires is != nil
+//@   modifies is.fieldTFRs, map(is.fieldTFRs)
+//@   ensures result != nil && tfrRecycled(is, result, field) && (cap(result.dicts) == 0 || cap(result.postings) == 0 || base(result.dicts) != base(result.postings)) && len(result.currID) >= 0
+
+// ---- the constructor ----
+// what iterator k of reader r is bound to
+//@ spec itBound(is *IndexSnapshot, r *IndexSnapshotTermFieldReader, k int, field string, tk string) bool = emptyIt(r.iterators[k]) || \
+//@     (r.iterators[k].iseg == is.segment[k].segment && fieldIs(is, r.iterators[k].ifield, field) && r.iterators[k].iterm == tk && r.iterators[k].iexcept == is.segment[k].deleted)
+//@ spec rdr(x index.TermFieldReader) *IndexSnapshotTermFieldReader = x.(*IndexSnapshotTermFieldReader)
+
+//@ func IndexSnapshot.TermFieldReader
+//@   props C02 C08
+//@   mode int
+//@   reveal offsetsOK segsOK
+//@   requires is != nil && is.parent != nil && offsetsOK(is) && rootShape(is) && all(f, string, implies(in(is.updatedFields, f), is.updatedFields[f] != nil))
+//@   modifies is.fieldTFRs, map(is.fieldTFRs), IndexSnapshotTermFieldReader.gstarted, fields(IndexSnapshotTermFieldReader), mem(segment.TermDictionary), mem(segment.PostingsList), mem(segment.PostingsIterator), SegmentSnapshot.mmaped, \
+//@            segment.PostingsList.lseg, segment.PostingsList.lfield, segment.PostingsList.lterm, segment.PostingsList.lexcept, \
+//@            segment.PostingsIterator.iseg, segment.PostingsIterator.ifield, segment.PostingsIterator.iterm, segment.PostingsIterator.iexcept, segment.PostingsIterator.ppos, \
+//@            segment.PostingsIterator.pstarted, segment.PostingsIterator.plast, segment.PostingsIterator.pdone
+//@   at call pl.Iterator#0 after: ghost result.ppos = i
+// (a recycled reader starts over: its ghost cursor is reset)
+//@   at call is.allocTermFieldReaderDicts#0 after: ghost result.gstarted = false
+//@   ensures implies(result1 == nil, result0 != nil && typeis(result0, *IndexSnapshotTermFieldReader) && rdr(result0) != nil && rdr(result0).snapshot == is && rdr(result0).field == field && rdr(result0).term == term)
+// C02: every iterator is bound to its segment, the field, the term and the segment's deletions
+//@   ensures implies(result1 == nil, len(rdr(result0).iterators) == len(is.segment) && forall(k, 0, len(is.segment), rdr(result0).iterators[k] != nil && itBound(is, rdr(result0), k, field, termKey(term))))
+// C08: the reader starts in the state its Next / Advance contracts require
+//@   ensures implies(result1 == nil, !rdr(result0).gstarted && rdr(result0).segmentOffset == 0 && rdr(result0).currPosting == nil && len(rdr(result0).iterators) == len(is.offsets))
+//@   ensures implies(result1 == nil, segsOK(rdr(result0)))
+//@   ensures implies(result1 == nil, forall(k, 0, len(is.segment), emptyIt(rdr(result0).iterators[k]) || rdr(result0).iterators[k].ppos == k))
+//@   ensures implies(result1 == nil, forall(k, 0, len(is.segment), !rdr(result0).iterators[k].pstarted))
+//@   ensures implies(result1 == nil, forall(k, 0, len(is.segment), segCount(rdr(result0).iterators[k]) < 4611686018427387904))
+//@   ensures implies(result1 == nil, forall(k, 0, len(is.segment)-1, is.offsets[k] + segCount(rdr(result0).iterators[k]) <= is.offsets[k+1]))
+//@   ensures implies(result1 == nil, tfrShape(rdr(result0)))
+//@   ensures implies(result1 == nil, tfrCursor(rdr(result0)))
+//@   ensures implies(result1 == nil, rdr(result0).includeFreq == includeFreq && rdr(result0).includeNorm == includeNorm && rdr(result0).includeTermVectors == includeTermVectors)
+//@   loop 0: invariant rv != nil && rv.snapshot == is && len(rv.dicts) == len(is.segment) && len(rv.postings) == len(is.segment) && len(rv.iterators) == len(is.segment) && rv.segmentOffset == 0 && rv.currPosting == nil
+//@   loop 0: invariant forall(k, 0, iter, rv.dicts[k] != nil && (emptyDict(rv.dicts[k]) || (rv.dicts[k].dseg == is.segment[k].segment && fieldIs(is, rv.dicts[k].dfield, field))))
+//@   loop 0: invariant forall(k, 0, len(rv.iterators), rv.iterators[k] == nil || emptyIt(rv.iterators[k]) || (rv.iterators[k].ppos == k && segCount(rv.iterators[k]) == segDocs(is.segment[k].segment)))
+//@   loop 0: invariant fresh(rv.dicts) && (cap(rv.postings) == 0 || base(rv.dicts) != base(rv.postings))
+//@   loop 1: invariant rv != nil && rv.snapshot == is && len(rv.dicts) == len(is.segment) && len(rv.postings) == len(is.segment) && len(rv.iterators) == len(is.segment) && rv.segmentOffset == 0 && rv.currPosting == nil
+//@   loop 1: invariant forall(k, 0, len(rv.dicts), rv.dicts[k] != nil && (emptyDict(rv.dicts[k]) || (rv.dicts[k].dseg == is.segment[k].segment && fieldIs(is, rv.dicts[k].dfield, field))))
+//@   loop 1: invariant forall(k, iter, len(rv.iterators), rv.iterators[k] == nil || emptyIt(rv.iterators[k]) || (rv.iterators[k].ppos == k && segCount(rv.iterators[k]) == segDocs(is.segment[k].segment)))
+//@   loop 1: invariant forall(k, 0, iter, rv.iterators[k] != nil && !rv.iterators[k].pstarted && itBound(is, rv, k, field, termKey(term)) && (emptyIt(rv.iterators[k]) || (rv.iterators[k].ppos == k && segCount(rv.iterators[k]) == segDocs(is.segment[k].segment) && !rv.iterators[k].pdone)))
+//@   loop 1: invariant rv.field == field && rv.term == term && rv.includeFreq == includeFreq && rv.includeNorm == includeNorm && rv.includeTermVectors == includeTermVectors
+
+// a statistics counter (wrap-around of the byte count is harmless and not what C02 / C08 are about)
+//@ func IndexSnapshotTermFieldReader.incrementBytesRead
+//@   props C02 C08
+//@   mode int
+//@   trusted statistics counter: uint64 wrap-around of bytesRead is not under contract
+//@   requires i != nil
+//@   modifies i.bytesRead
